@@ -53,7 +53,7 @@ package netpoll
 //@ pred lbsync(m *manager) = (typeis(m.balance, *roundRobinLB) ==> sameslice(as(m.balance, *roundRobinLB).polls, m.polls) && as(m.balance, *roundRobinLB).pollSize == len(m.polls) && as(m.balance, *roundRobinLB).accepted < 9223372036854775000)
 //@     && (typeis(m.balance, *randomLB) ==> sameslice(as(m.balance, *randomLB).polls, m.polls) && as(m.balance, *randomLB).pollSize == len(m.polls))
 // what always holds of the manager; what holds once status == initialised
-//@ pred mbase(m *manager) = lbkind(m) && lbsync(m) && m.numLoops >= 1 && pollsok(m.polls) && m.status >= 0 && m.status <= 2
+//@ pred mbase(m *manager) = m != nil && lbkind(m) && lbsync(m) && m.numLoops >= 1 && pollsok(m.polls) && m.status >= 0 && m.status <= 2
 //@ pred mgood(m *manager) = len(m.polls) >= 1
 //@ ghost global runFailed bool
 
